@@ -153,6 +153,17 @@ type c07Peer struct {
 	ln      net.Listener
 	mu      sync.Mutex
 	scripts map[string]c07Script
+	conns   []net.Conn
+}
+
+func (p *c07Peer) closeAll() {
+	p.ln.Close()
+	p.mu.Lock()
+	for _, c := range p.conns {
+		c.Close()
+	}
+	p.conns = nil
+	p.mu.Unlock()
 }
 
 type c07Script struct {
@@ -173,6 +184,9 @@ func newC07Peer(t *testing.T) *c07Peer {
 			if err != nil {
 				return
 			}
+			p.mu.Lock()
+			p.conns = append(p.conns, c)
+			p.mu.Unlock()
 			go p.serve(c)
 		}
 	}()
@@ -452,7 +466,7 @@ func TestVerif_C07_h1hostile(t *testing.T) {
 	s := verifh.New(t, "C07", "h1hostile",
 		"grammar-directed HTTP/1.1 responses with faults (status line, duplicate/contradictory Content-Length and Transfer-Encoding, chunk sizes/extensions/trailers, bare LF, control bytes, long lines, 1xx prefixes, Content-Encoding/Content-Type/Alt-Svc/WWW-Authenticate/Location/Set-Cookie value fuzz, truncated/garbage compressed bodies) + byte mutation + cuts, x 10 option sets adding a processing stage; oracle: call returns resp-or-error within 15 s, no panic, no spin; non-trivial = at least one fault tag; distinct by (option, response bytes)")
 	peer := newC07Peer(t)
-	defer peer.ln.Close()
+	defer peer.closeAll()
 	base := "http://" + peer.ln.Addr().String()
 	dir := t.TempDir()
 	opts := c07Options()
@@ -576,12 +590,29 @@ func TestVerif_C07_h1hostile(t *testing.T) {
 		time.Sleep(50 * time.Millisecond)
 	}
 	g1 := runtime.NumGoroutine()
-	cpu0 := c07CPU()
-	time.Sleep(1 * time.Second)
-	cpu := c07CPU() - cpu0
+	cpu := c07IdleCPU()
 	s.Observe("idle-cpu", cpu < 600*time.Millisecond, "", true, "process CPU time during 1 s of idleness after the run", fmt.Sprintf("a goroutine is spinning: %v CPU in 1 s idle", cpu))
 	s.Observe("goroutines", g1 <= g0+8, "", true, fmt.Sprintf("goroutines before=%d after=%d", g0, g1), fmt.Sprintf("goroutines leaked: before=%d after=%d", g0, g1))
 	s.Finish()
+}
+
+// c07IdleCPU measures process CPU time over 1 s of idleness; it takes the minimum of up to
+// five consecutive windows so that a short burst (GC, a connection still being torn down)
+// is not mistaken for a spinning goroutine — a real spin shows in every window.
+func c07IdleCPU() time.Duration {
+	best := time.Duration(1 << 62)
+	for i := 0; i < 5; i++ {
+		c0 := c07CPU()
+		time.Sleep(1 * time.Second)
+		d := c07CPU() - c0
+		if d < best {
+			best = d
+		}
+		if best < 300*time.Millisecond {
+			break
+		}
+	}
+	return best
 }
 
 func truncate(s string, n int) string {
@@ -613,7 +644,7 @@ func TestVerif_C07_budget(t *testing.T) {
 	s := verifh.New(t, "C07", "budget",
 		"endless server streams (header line without end, endless header lines, endless 1xx responses, endless chunk-size line, endless chunk extension, endless trailer) x MaxResponseHeaderBytes in {4 KiB, 64 KiB}; oracle: the call fails and the client read at most limit + 3 x 4 KiB (+ slack for one 1xx round) bytes from the socket; every case is non-trivial")
 	peer := newC07Peer(t)
-	defer peer.ln.Close()
+	defer peer.closeAll()
 	base := "http://" + peer.ln.Addr().String()
 	type bcase struct {
 		name    string
